@@ -520,6 +520,9 @@ func init() {
 				}
 				if got, isF := r.(float64); !isF || got != want {
 					add(fn, "matches-definition", []any{f}, fmt.Sprintf("%s(%v) = %v, expected %v", fn, f, r, want))
+				} else if f == 0 && fn != "abs" && math.Signbit(got) != math.Signbit(f) {
+					// documented special case of ceil, floor and round: f(±0) = ±0
+					add(fn, "signed-zero", []any{f}, fmt.Sprintf("%s(%v) = %v: the documented special case %s(±0) = ±0 does not hold (sign of zero lost)", fn, f, got, fn))
 				}
 			}
 		}
